@@ -5,48 +5,58 @@ From Desper Require Import Lib.Alist Loader.Value Loader.C15Model Loader.C15Lemm
 Import ListNotations.
 Open Scope Z_scope.
 
-(* For every well-formed description, namespace and resource tree - any
-   number of processors, entities, components, args, kwargs, arbitrary JSON
-   argument values - a load that the model of WorldHandle.load / the three
-   dict transformers / populate_world_from_dict / World accepts satisfies the
-   one-pass reading of the description ([spec_ok]): exactly the listed
-   constructor calls in order, each argument being [subst_spec] of the
-   described one; processors = the two default ones then the listed ones;
-   every non-empty listed entity present once with exactly its components,
-   under the given id; dispatching disabled; after enabling, per handler
-   component on_add(entity, world) once then on_world_load(handle, world)
-   once and nothing else.  The load may abort only when some argument is of
-   an open form (begins with a marker, is not of the exact form). *)
+(* The case says how the world is loaded ([c_load]):
+     LFile d            WorldFromFileHandle(file)()
+     LHandle steps      a WorldHandle whose transform functions are [steps] (default
+                        processors, WorldFromFileTransformer with ANY list of dict
+                        transformers, user functions calling populate_world_from_dict,
+                        marking user functions), called
+     LDirect en steps   populate_world_from_dict called directly, once per step, on a
+                        World whose dispatching is [en]
+   For every way of loading, every well-formed description(s), namespace and resource
+   tree - any number of processors, entities, components, args, kwargs, arbitrary
+   argument values - a load that the model (the transform functions in order, the dict
+   transformer passes with their deepcopy, populate_world_from_dict, World) accepts
+   satisfies the declarative reading ([spec_ok]): exactly the listed constructor calls
+   in order, each argument being [expected] of the described one (file with the default
+   transformers: the one-pass [subst_spec]; custom list: exactly these passes in this
+   order; dictionary: the argument itself); processors in the order the steps add them
+   (file handle: the two default ones, then the listed ones); every non-empty listed
+   entity present once with exactly its components, under the given id; dispatching
+   disabled after a handle's load (untouched by a direct call); user transform functions
+   called in order with (handle, world); per handler component on_add(entity, world)
+   once, then - handle only - on_world_load(handle, world) once, and nothing else.
+   A load may abort only when some argument is of an open form. *)
 Theorem C15_load_is_spec :
   forall c : C15_case, wf_b c = true -> known_b c = false -> accepts c = true -> holds c.
 Proof. exact accepts_holds. Qed.
 Print Assumptions C15_load_is_spec.
 
-(* The same with the observation eliminated: the three-pass pipeline's own
-   result satisfies the one-pass specification. *)
+(* The same with the observation eliminated: the pipeline's own result satisfies the
+   specification, for every way of loading. *)
 Theorem C15_pipeline_meets_spec :
-  forall E ds, wf_b (Case E ds (model E ds)) = true -> known_b (Case E ds (model E ds)) = false ->
-               holds_b (Case E ds (model E ds)) = true.
+  forall E k, wf_b (Case E k (model E k)) = true -> known_b (Case E k (model E k)) = false ->
+              holds_b (Case E k (model E k)) = true.
 Proof. exact model_holds. Qed.
 Print Assumptions C15_pipeline_meets_spec.
 
 (* ---- what [holds] means on raw observations ---------------------------------- *)
-(* the j-th described dict (processors first, then the components entity by
-   entity) is the j-th constructor call; its i-th positional argument is
-   exactly what [subst_spec] prescribes, and there are no further arguments *)
+(* the j-th described dict (in construction order over all steps) is the j-th
+   constructor call; its i-th positional argument is exactly what [expected]
+   prescribes, and there are no further arguments *)
 Theorem C15_positional_argument :
-  forall c w j d i a v,
-    holds c -> c_obs c = OOk w -> nth_error (all_dicts (c_desc c)) j = Some d ->
-    nth_error (optl (d_args d)) i = Some a -> subst_spec (c_env c) a = Exactly v ->
+  forall c w j h d i a v,
+    holds c -> c_obs c = OOk w -> nth_error (all_hdicts (steps_of (c_load c))) j = Some (h, d) ->
+    nth_error (optl (d_args d)) i = Some a -> expected (c_env c) h a = Exactly v ->
     exists k, nth_error (o_constr w) j = Some k /\ nth_error (k_args k) i = Some v
               /\ length (k_args k) = length (optl (d_args d)).
 Proof. exact holds_arg. Qed.
 Print Assumptions C15_positional_argument.
 
 Theorem C15_keyword_argument :
-  forall c w j d i key a v,
-    holds c -> c_obs c = OOk w -> nth_error (all_dicts (c_desc c)) j = Some d ->
-    nth_error (optl (d_kwargs d)) i = Some (key, a) -> subst_spec (c_env c) a = Exactly v ->
+  forall c w j h d i key a v,
+    holds c -> c_obs c = OOk w -> nth_error (all_hdicts (steps_of (c_load c))) j = Some (h, d) ->
+    nth_error (optl (d_kwargs d)) i = Some (key, a) -> expected (c_env c) h a = Exactly v ->
     exists k, nth_error (o_constr w) j = Some k /\ nth_error (k_kwargs k) i = Some (key, v)
               /\ length (k_kwargs k) = length (optl (d_kwargs d)).
 Proof. exact holds_kwarg. Qed.
@@ -54,30 +64,76 @@ Print Assumptions C15_keyword_argument.
 
 Theorem C15_no_extra_objects :
   forall c w, holds c -> c_obs c = OOk w ->
-    length (o_constr w) = length (all_dicts (c_desc c)).
+    length (o_constr w) = length (all_hdicts (steps_of (c_load c))).
 Proof. exact holds_counts. Qed.
 
-(* processors = defaults then the listed instances in order; dispatching
-   disabled; entity ids pairwise distinct *)
+(* processors in the order the steps add them; dispatching; the user transform
+   functions were each called once, in order, with (handle, world); ids distinct *)
 Theorem C15_world_shape :
   forall c w, holds c -> c_obs c = OOk w ->
-    o_procs w = -1 :: -2 :: zseq 0 (length (proc_dicts (c_desc c))) /\ o_enabled w = false /\
+    o_procs w = exp_procs (steps_of (c_load c)) 0 /\
+    o_enabled w = init_enabled (c_load c) /\
+    o_marks w = exp_marks (steps_of (c_load c)) /\
     NoDup (map fst (o_ents w)).
 Proof. exact holds_world. Qed.
 Print Assumptions C15_world_shape.
 
-(* the entities are the listed non-empty ones, in order, under the given ids
-   ([spec_ents] succeeds), and the callbacks of each component instance are
-   exactly on_add (if handled) then on_world_load (if handled) *)
+(* the entities are the listed non-empty ones of all steps, in order, under the
+   given ids ([spec_items] succeeds), and the callbacks of each component instance
+   are exactly on_add (if handled) then - handle only - on_world_load (if handled) *)
 Theorem C15_callbacks :
   forall c w, holds c -> c_obs c = OOk w ->
     exists table,
-      spec_ents (c_env c) (optl (w_ents (c_desc c)))
-                (Z.of_nat (length (proc_dicts (c_desc c)))) (o_ents w) = Some table /\
-      (forall x, In x table -> cbs_of (fst x) (o_cbs w) = expected_cbs x) /\
+      spec_items (c_env c) (flat_map step_items (steps_of (c_load c))) 0 (o_ents w) = Some table /\
+      (forall x, In x table ->
+         cbs_of (fst x) (o_cbs w) = expected_cbs (via_handle (c_load c)) x) /\
       (forall cb0, In cb0 (o_cbs w) -> exists x, In x table /\ fst x = cb_inst cb0).
 Proof. exact holds_callbacks. Qed.
 Print Assumptions C15_callbacks.
+
+(* ---- the three ways of loading ------------------------------------------------------ *)
+(* JSON file through WorldFromFileHandle: the one-pass substitution, the default
+   processors first, dispatching disabled *)
+Theorem C15_file_argument :
+  forall E ds obs w j d i a v,
+    holds (Case E (LFile ds) obs) -> obs = OOk w -> nth_error (all_dicts ds) j = Some d ->
+    nth_error (optl (d_args d)) i = Some a -> subst_spec E a = Exactly v ->
+    exists k, nth_error (o_constr w) j = Some k /\ nth_error (k_args k) i = Some v
+              /\ length (k_args k) = length (optl (d_args d)).
+Proof. exact file_arg. Qed.
+
+Theorem C15_file_keyword_argument :
+  forall E ds obs w j d i key a v,
+    holds (Case E (LFile ds) obs) -> obs = OOk w -> nth_error (all_dicts ds) j = Some d ->
+    nth_error (optl (d_kwargs d)) i = Some (key, a) -> subst_spec E a = Exactly v ->
+    exists k, nth_error (o_constr w) j = Some k /\ nth_error (k_kwargs k) i = Some (key, v)
+              /\ length (k_kwargs k) = length (optl (d_kwargs d)).
+Proof. exact file_kwarg. Qed.
+
+Theorem C15_file_world :
+  forall E ds obs w, holds (Case E (LFile ds) obs) -> obs = OOk w ->
+    o_procs w = -1 :: -2 :: zseq 0 (length (proc_dicts ds)) /\ o_enabled w = false /\
+    NoDup (map fst (o_ents w)).
+Proof. exact file_world. Qed.
+Print Assumptions C15_file_world.
+
+(* dictionary handed to populate_world_from_dict: no argument is substituted,
+   whatever it looks like *)
+Theorem C15_dictionary_argument_untouched :
+  forall E a, expected E HDict a = Exactly a.
+Proof. exact dict_expected. Qed.
+
+(* WorldFromFileTransformer with a custom list of dict transformers: exactly
+   these passes, in this order, each read declaratively ([spec_pass]); for the
+   default list this is the one-pass reading *)
+Theorem C15_custom_passes_in_order :
+  forall E ps a, ns_wf E = true -> expected E (HFile ps) a = spec_fold E ps (Exactly a).
+Proof. exact custom_expected. Qed.
+
+Theorem C15_default_passes_one_pass :
+  forall E a, ns_wf E = true -> spec_fold E default_passes (Exactly a) = subst_spec E a.
+Proof. exact fold_default_one_pass. Qed.
+Print Assumptions C15_default_passes_one_pass.
 
 (* [subst_spec] on the literal forms: "${" body "}", "$res{" body "}",
    "$handle{" body "}" with a non-empty body free of '}' and newline;
@@ -115,37 +171,78 @@ Proof. exact match_exact. Qed.
 Definition ex_ok : C15_case :=
   (Case (Env [([118; 110; 115], NS (JRef KNoCopy 0) CNone); ([118; 110; 115; 46; 67; 48], NS (JRef
     KObj 1) (CComp true true)); ([118; 110; 115; 46; 80; 48], NS (JRef KObj 2) CProc); ([118;
-    110; 115; 46; 111; 48], NS (JRef KObj 3) CNone)] [([114; 49], NHandle 0 100)] 2) (DS (Some
-    [(DD [118; 110; 115; 46; 80; 48] (Some [(JNum 1)]) None)]) (Some [(ED (Some (JStr [104; 101;
-    114; 111])) (Some [(DD [118; 110; 115; 46; 67; 48] (Some [(JStr [36; 123; 118; 110; 115; 46;
-    111; 48; 125]); (JStr [36; 114; 101; 115; 123; 114; 49; 125]); (JStr [120; 36; 123; 118;
-    110; 115; 46; 111; 48; 125]); (JList [(JStr [36; 123; 118; 110; 115; 46; 111; 48; 125])])])
-    (Some [(4, (JStr [36; 104; 97; 110; 100; 108; 101; 123; 114; 49; 125]))]))])); (ED None
-    (Some [(DD [118; 110; 115; 46; 67; 48] None None)]))])) (OOk (WO [(K 2 [(JNum 1)] []); (K 1
-    [(JRef KObj 3); (JRef KRes 100); (JStr [120; 36; 123; 118; 110; 115; 46; 111; 48; 125]);
-    (JList [(JStr [36; 123; 118; 110; 115; 46; 111; 48; 125])])] [(4, (JRef KHandle 0))]); (K 1
-    [] [])] [(-1); (-2); 0] [((JStr [104; 101; 114; 111]), [1]); ((JNum 1), [2])] false [(CB 1 0
-    (JStr [104; 101; 114; 111]) true); (CB 2 0 (JNum 1) true); (CB 1 1 JNull true); (CB 2 1
-    JNull true)]))).
+    110; 115; 46; 111; 48], NS (JRef KObj 3) CNone); ([118; 110; 115; 46; 80; 49], NS (JRef KObj
+    4) CProc)] [([114; 49], NHandle 0 100)] 2) (LFile (DS (Some [(DD [118; 110; 115; 46; 80; 48]
+    (Some [(JNum 1)]) None)]) (Some [(ED (Some (JStr [104; 101; 114; 111])) (Some [(DD [118;
+    110; 115; 46; 67; 48] (Some [(JStr [36; 123; 118; 110; 115; 46; 111; 48; 125]); (JStr [36;
+    114; 101; 115; 123; 114; 49; 125]); (JStr [120; 36; 123; 118; 110; 115; 46; 111; 48; 125]);
+    (JList [(JStr [36; 123; 118; 110; 115; 46; 111; 48; 125])])]) (Some [(4, (JStr [36; 104; 97;
+    110; 100; 108; 101; 123; 114; 49; 125]))]))])); (ED None (Some [(DD [118; 110; 115; 46; 67;
+    48] None None)]))]))) (OOk (WO [(K 2 [(JNum 1)] []); (K 1 [(JRef KObj 3); (JRef KRes 100);
+    (JStr [120; 36; 123; 118; 110; 115; 46; 111; 48; 125]); (JList [(JStr [36; 123; 118; 110;
+    115; 46; 111; 48; 125])])] [(4, (JRef KHandle 0))]); (K 1 [] [])] [(-1); (-2); 0] [((JStr
+    [104; 101; 114; 111]), [1]); ((JNum 1), [2])] false [(CB 1 0 (JStr [104; 101; 114; 111])
+    true); (CB 2 0 (JNum 1) true); (CB 1 1 JNull true); (CB 2 1 JNull true)] []))).
 Example C15_nonvacuous : wf_b ex_ok = true /\ known_b ex_ok = false /\ accepts ex_ok = true.
 Proof. vm_compute. auto. Qed.
 
-(* the same description loaded by a copy of desper that uses .search instead
-   of .match: the look-alike "x${vns.o0}" was substituted *)
+(* a real load by a plain WorldHandle: marking function, a user function that
+   calls populate_world_from_dict (marker-looking string and a real object as
+   arguments), default processors, a WorldFromFileTransformer with the passes
+   [resource; type] (so "${vns.o0}" stays a string), marking function *)
+Definition ex_handle : C15_case :=
+  (Case (Env [([118; 110; 115], NS (JRef KNoCopy 0) CNone); ([118; 110; 115; 46; 67; 48], NS (JRef
+    KObj 1) (CComp true true)); ([118; 110; 115; 46; 80; 48], NS (JRef KObj 2) CProc); ([118;
+    110; 115; 46; 111; 48], NS (JRef KObj 3) CNone); ([118; 110; 115; 46; 80; 49], NS (JRef KObj
+    4) CProc)] [([114; 49], NHandle 0 100)] 1) (LHandle [(SMark 0); (SDict (DS (Some [(DD [118;
+    110; 115; 46; 80; 49] None None)]) (Some [(ED (Some (JNum 7)) (Some [(DD [118; 110; 115; 46;
+    67; 48] (Some [(JStr [36; 123; 118; 110; 115; 46; 111; 48; 125]); (JRef KObj 3)])
+    None)]))]))); SDefault; (SFile [PRes; PType] (DS (Some [(DD [118; 110; 115; 46; 80; 48] None
+    None)]) (Some [(ED None (Some [(DD [118; 110; 115; 46; 67; 48] (Some [(JStr [36; 123; 118;
+    110; 115; 46; 111; 48; 125]); (JStr [36; 114; 101; 115; 123; 114; 49; 125])]) None)]))])));
+    (SMark 1)]) (OOk (WO [(K 4 [] []); (K 1 [(JStr [36; 123; 118; 110; 115; 46; 111; 48; 125]);
+    (JRef KObj 3)] []); (K 2 [] []); (K 1 [(JStr [36; 123; 118; 110; 115; 46; 111; 48; 125]);
+    (JRef KRes 100)] [])] [0; (-1); (-2); 2] [((JNum 7), [1]); ((JNum 1), [3])] false [(CB 1 0
+    (JNum 7) true); (CB 3 0 (JNum 1) true); (CB 1 1 JNull true); (CB 3 1 JNull true)] [(0,
+    true); (1, true)]))).
+Example C15_nonvacuous_handle :
+  wf_b ex_handle = true /\ known_b ex_handle = false /\ accepts ex_handle = true.
+Proof. vm_compute. auto. Qed.
+
+(* populate_world_from_dict called twice on an enabled World *)
+Definition ex_direct : C15_case :=
+  (Case (Env [([118; 110; 115], NS (JRef KNoCopy 0) CNone); ([118; 110; 115; 46; 67; 48], NS (JRef
+    KObj 1) (CComp true true)); ([118; 110; 115; 46; 80; 48], NS (JRef KObj 2) CProc); ([118;
+    110; 115; 46; 111; 48], NS (JRef KObj 3) CNone); ([118; 110; 115; 46; 80; 49], NS (JRef KObj
+    4) CProc)] [([114; 49], NHandle 0 100)] 1) (LDirect true [(SDict (DS None (Some [(ED (Some
+    (JStr [97])) (Some [(DD [118; 110; 115; 46; 67; 48] (Some [(JStr [36; 114; 101; 115; 123;
+    114; 49; 125])]) None)]))]))); (SDict (DS (Some [(DD [118; 110; 115; 46; 80; 48] None (Some
+    [(4, (JStr [36; 123; 118; 110; 115; 46; 111; 48; 125]))]))]) (Some [(ED None (Some [(DD
+    [118; 110; 115; 46; 67; 48] (Some [(JRef KObj 3)]) None)]))])))]) (OOk (WO [(K 1 [(JStr [36;
+    114; 101; 115; 123; 114; 49; 125])] []); (K 2 [] [(4, (JStr [36; 123; 118; 110; 115; 46;
+    111; 48; 125]))]); (K 1 [(JRef KObj 3)] [])] [1] [((JStr [97]), [0]); ((JNum 1), [2])] true
+    [(CB 0 0 (JStr [97]) true); (CB 2 0 (JNum 1) true)] []))).
+Example C15_nonvacuous_direct :
+  wf_b ex_direct = true /\ known_b ex_direct = false /\ accepts ex_direct = true.
+Proof. vm_compute. auto. Qed.
+
+(* the same description as ex_ok loaded by a copy of desper that uses .search
+   instead of .match: the look-alike "x${vns.o0}" was substituted *)
 Definition ex_search : C15_case :=
   (Case (Env [([118; 110; 115], NS (JRef KNoCopy 0) CNone); ([118; 110; 115; 46; 67; 48], NS (JRef
     KObj 1) (CComp true true)); ([118; 110; 115; 46; 80; 48], NS (JRef KObj 2) CProc); ([118;
-    110; 115; 46; 111; 48], NS (JRef KObj 3) CNone)] [([114; 49], NHandle 0 100)] 2) (DS (Some
-    [(DD [118; 110; 115; 46; 80; 48] (Some [(JNum 1)]) None)]) (Some [(ED (Some (JStr [104; 101;
-    114; 111])) (Some [(DD [118; 110; 115; 46; 67; 48] (Some [(JStr [36; 123; 118; 110; 115; 46;
-    111; 48; 125]); (JStr [36; 114; 101; 115; 123; 114; 49; 125]); (JStr [120; 36; 123; 118;
-    110; 115; 46; 111; 48; 125]); (JList [(JStr [36; 123; 118; 110; 115; 46; 111; 48; 125])])])
-    (Some [(4, (JStr [36; 104; 97; 110; 100; 108; 101; 123; 114; 49; 125]))]))])); (ED None
-    (Some [(DD [118; 110; 115; 46; 67; 48] None None)]))])) (OOk (WO [(K 2 [(JNum 1)] []); (K 1
-    [(JRef KObj 3); (JRef KRes 100); (JRef KObj 3); (JList [(JStr [36; 123; 118; 110; 115; 46;
-    111; 48; 125])])] [(4, (JRef KHandle 0))]); (K 1 [] [])] [(-1); (-2); 0] [((JStr [104; 101;
-    114; 111]), [1]); ((JNum 1), [2])] false [(CB 1 0 (JStr [104; 101; 114; 111]) true); (CB 2 0
-    (JNum 1) true); (CB 1 1 JNull true); (CB 2 1 JNull true)]))).
+    110; 115; 46; 111; 48], NS (JRef KObj 3) CNone); ([118; 110; 115; 46; 80; 49], NS (JRef KObj
+    4) CProc)] [([114; 49], NHandle 0 100)] 2) (LFile (DS (Some [(DD [118; 110; 115; 46; 80; 48]
+    (Some [(JNum 1)]) None)]) (Some [(ED (Some (JStr [104; 101; 114; 111])) (Some [(DD [118;
+    110; 115; 46; 67; 48] (Some [(JStr [36; 123; 118; 110; 115; 46; 111; 48; 125]); (JStr [36;
+    114; 101; 115; 123; 114; 49; 125]); (JStr [120; 36; 123; 118; 110; 115; 46; 111; 48; 125]);
+    (JList [(JStr [36; 123; 118; 110; 115; 46; 111; 48; 125])])]) (Some [(4, (JStr [36; 104; 97;
+    110; 100; 108; 101; 123; 114; 49; 125]))]))])); (ED None (Some [(DD [118; 110; 115; 46; 67;
+    48] None None)]))]))) (OOk (WO [(K 2 [(JNum 1)] []); (K 1 [(JRef KObj 3); (JRef KRes 100);
+    (JRef KObj 3); (JList [(JStr [36; 123; 118; 110; 115; 46; 111; 48; 125])])] [(4, (JRef
+    KHandle 0))]); (K 1 [] [])] [(-1); (-2); 0] [((JStr [104; 101; 114; 111]), [1]); ((JNum 1),
+    [2])] false [(CB 1 0 (JStr [104; 101; 114; 111]) true); (CB 2 0 (JNum 1) true); (CB 1 1
+    JNull true); (CB 2 1 JNull true)] []))).
 Example C15_search_rejected :
   wf_b ex_search = true /\ known_b ex_search = false /\ holds_b ex_search = false /\ accepts ex_search = false.
 Proof. vm_compute. auto. Qed.
@@ -156,9 +253,9 @@ Proof. vm_compute. auto. Qed.
 Definition ex_k6 : C15_case :=
   (Case (Env [([118; 110; 115], NS (JRef KNoCopy 0) CNone); ([118; 110; 115; 46; 67; 48], NS (JRef
     KObj 1) (CComp true true)); ([118; 110; 115; 46; 80; 48], NS (JRef KObj 2) CProc); ([118;
-    110; 115; 46; 111; 48], NS (JRef KObj 3) CNone)] [([114; 49], NHandle 0 100)] 1) (DS None
-    (Some [(ED None (Some [(DD [118; 110; 115; 46; 67; 48] (Some [(JStr [36; 123; 118; 110; 115;
-    125])]) None)]))])) OErr).
+    110; 115; 46; 111; 48], NS (JRef KObj 3) CNone); ([118; 110; 115; 46; 80; 49], NS (JRef KObj
+    4) CProc)] [([114; 49], NHandle 0 100)] 1) (LFile (DS None (Some [(ED None (Some [(DD [118;
+    110; 115; 46; 67; 48] (Some [(JStr [36; 123; 118; 110; 115; 125])]) None)]))]))) OErr).
 Theorem C15_K6_deepcopy_refuted :
   exists c, wf_b c = true /\ known_b c = true /\ accepts c = true /\ holds_b c = false.
 Proof. exists ex_k6. vm_compute. auto. Qed.
